@@ -46,7 +46,7 @@ type behaviour struct {
 	Obs []obs `json:"obs"`
 }
 
-const settle = 6 * time.Second
+const settle = 10 * time.Second
 
 func keyParts(k string) (uint16, muxer.ProtocolRole) {
 	pid := uint16(k[0] - '0')
@@ -244,8 +244,16 @@ func replay(b *behaviour) (clause, desc string) {
 		}
 		if !same(got, want) {
 			cl := "deliver"
+			opened := false // the gate was opened for good: what follows does not depend on the gate's meaning
+			for _, p := range b.Ops[:i+1] {
+				if p.Op == "Start" {
+					opened = true
+				}
+			}
 			switch {
-			case want.Err != got.Err && (want.Err == "zero-length" || want.Err == "unknown protocol" || want.Err == "mode"):
+			case opened && (want.Err == "zero-length" || want.Err == "unknown protocol" || want.Err == "mode") && (got.Err == "none" || !got.Done):
+				// C09: such a segment closes the connection with an error - it did not (whatever the
+				// error's wording is, a connection that ended with one satisfies the clause)
 				cl = "c09-error"
 			case want.Done != got.Done || want.Err != got.Err:
 				cl = "stop"
